@@ -682,7 +682,7 @@ def merge_stats(a, b):
     return out
 
 
-def greedy_required(draw, run, stats, problems, base_cases, seed, cap=4000):
+def greedy_required(draw, run, stats, problems, base_cases, seed, cap=1500):
     """A deterministic stream (own constant seed, independent of VERIF_SEED and of the tier) that alone satisfies every
     requirement of sanity(): candidates are drawn from the module's random generator under the constant seed and kept only
     when they remove at least one outstanding requirement (greedy cover).  `problems(d)` lists the unmet requirements of
